@@ -81,7 +81,7 @@ def parse_printed(line: str):
     return None
 
 
-def run(module: str, cfg: str | None = None, *, workers: int = 8, heap: str = "2g", timeout: int = 1800,
+def run(module: str, cfg: str | None = None, *, workers: int = 8, heap: str = "2g", timeout: int = 900,
         env: dict | None = None, simulate: str | None = None, depth: int | None = None,
         seed: int | None = None, coverage: bool = False, deadlock: bool = False,
         spec_dir: str = SPEC_DIR, extra: list | None = None, keep_stdout: bool = False,
